@@ -5,7 +5,7 @@
    kind does not apply to the class). *)
 EXTENDS Loc
 
-Classes == {"SI", "CI", "SEQ", "CDS", "TX", "FEAT", "GENE", "VAR", "VCOLL", "COLL", "PARENT", "CODON", "QPOS", "FSI"}
+Classes == {"SI", "CI", "SEQ", "CDS", "TX", "FEAT", "GENE", "VAR", "VCOLL", "COLL", "PARENT", "CODON", "QPOS", "FSI", "RPOS"}
 Kinds == {"start>end", "negative", "beyond-sequence", "length-mismatch", "frames-mismatch", "cds-outside-exons",
           "undirected", "wrong-alphabet", "overlapping", "duplicate", "empty", "mixed-frame-phase", "multi-primary",
           "half-bounds", "strand-mismatch", "zero-length", "beyond-sequence-not-last", "gap-letter", "too-short", "too-long", "trailing-newline", "leading-blank",
@@ -23,6 +23,7 @@ WithinSeq(es, n) == n < 0 \/ \A i \in DOMAIN es : es[i] <= n
    PARENT = <<locEnd, seqlen, strandGiven, locStrand>> ; CODON = <<chars>> (three IUPAC nucleotide letters, any case)
    QPOS = <<collStart, collEnd, qStart, qEnd, startGiven, endGiven>> : AnnotationCollection.query_by_position on a collection
           with explicit bounds; a bound that is not given defaults to the collection's own
+   RPOS = <<starts, ends, strand, pos>> : relative_to_parent_pos(pos) of a single / multi-block location: 0 <= pos < length
    FSI = <<parents, strands>> : CompoundInterval.from_single_intervals; one entry per block, a parent is <<id, sequence
           variant (0 = none), type>> or <<>> for none -- the blocks must agree on the WHOLE parent, not on its id *)
 Valid(cls, a) ==
@@ -44,6 +45,7 @@ Valid(cls, a) ==
     [] cls = "QPOS" -> LET s == IF a[5] THEN a[3] ELSE a[1] e == IF a[6] THEN a[4] ELSE a[2] IN
                        0 <= s /\ a[1] <= s /\ s < e /\ e <= a[2]
     [] cls = "FSI" -> Len(a[1]) >= 1 /\ (\A i, j \in DOMAIN a[1] : a[1][i] = a[1][j]) /\ (\A i, j \in DOMAIN a[2] : a[2][i] = a[2][j])
+    [] cls = "RPOS" -> Pairwise(a[1], a[2]) /\ 0 <= a[4] /\ a[4] < SumSeq([i \in DOMAIN a[1] |-> a[2][i] - a[1][i]])
     [] cls = "CODON" -> Len(a[1]) = 3 /\ \A i \in DOMAIN a[1] : a[1][i] \in AllCases(IupacLetters)
 (* corruptions: each yields an INVALID tuple when it applies (checked by TLC in ValidityMC) *)
 Bump(s, i, v) == [s EXCEPT ![i] = v]
@@ -102,6 +104,9 @@ Corrupt(cls, a, kind) ==
     [] cls = "QPOS" /\ kind = "start>end" -> <<a[1], a[2], a[1] + 2, a[1] + 1, TRUE, TRUE>>
     [] cls = "QPOS" /\ kind = "zero-length" -> <<a[1], a[2], a[1] + 1, a[1] + 1, TRUE, TRUE>>
     [] cls = "QPOS" /\ kind = "negative" -> <<a[1], a[2], -1, a[4], TRUE, a[6]>>
+    \* one past the last base (the END of an interval is a boundary, not a base), and one before the first
+    [] cls = "RPOS" /\ kind = "beyond-sequence" -> <<a[1], a[2], a[3], SumSeq([i \in DOMAIN a[1] |-> a[2][i] - a[1][i]])>>
+    [] cls = "RPOS" /\ kind = "negative" -> <<a[1], a[2], a[3], -1>>
     [] cls = "FSI" /\ kind = "empty" -> <<<<>>, <<>>>>
     [] cls = "FSI" /\ kind = "strand-mismatch" /\ Len(a[2]) >= 2 -> <<a[1], Bump(a[2], Len(a[2]), IF a[2][1] = "+" THEN "-" ELSE "+")>>
     [] cls = "FSI" /\ kind = "parent-other-id" /\ Len(a[1]) >= 2 /\ a[1][1] # <<>> ->
